@@ -26,6 +26,8 @@ run big --max_n 100000 &
 run big --max_n 100000 --probes handle &
 run big --max_n 100000 --probes steps &
 run sweep-line --budget 40 --seg 1 --mon pred,get,cblive,empty &
+run exp-types --budget 10 &
+run seg-bulk --max_n 70000 &
 wait
 $BIN/llvm-profdata merge -sparse $W/*.profraw -o $W/all.profdata
 mkdir -p /verif/evidence
@@ -47,5 +49,5 @@ for line in open(sys.argv[1], errors='replace'):
 print("\nLIBRARY LINES NEVER EXECUTED BY THE UNION WORKLOAD (%d):" % len(out))
 print("\n".join(out))
 PY
-rm -rf $W
+[ -n "$KEEP_COV" ] || rm -rf $W
 tail -60 /verif/evidence/coverage.txt
